@@ -68,8 +68,8 @@ pub fn base_strategy() -> BoxedStrategy<c02::Case> {
         3 => Just(DestSpec::EmptyDir),
         2 => (prop::collection::vec((any::<u16>(), mk), 1..8), 0u8..3).prop_map(|(m, x)| DestSpec::Populated(m, x)),
     ];
-    (prop::collection::vec(src, 1..3), dest, prop_oneof![1 => Just(Some(1024u64)), 3 => Just(Some(4096u64)), 2 => Just(Some(65536u64)), 1 => Just(None)], prop::bool::weighted(0.1), prop::bool::weighted(0.5))
-        .prop_map(|(srcs, dest, block, no_target_dir, nolinks)| c02::Case {
+    (prop::collection::vec(src, 1..3), dest, prop_oneof![1 => Just(Some(1024u64)), 3 => Just(Some(4096u64)), 2 => Just(Some(65536u64)), 1 => Just(None)], prop::bool::weighted(0.1), prop::bool::weighted(0.5), prop::bool::weighted(0.15))
+        .prop_map(|(srcs, dest, block, no_target_dir, nolinks, dup)| { let mut srcs = srcs; if dup && srcs.len() == 1 { let mut s2 = srcs[0].clone(); s2.name = s2.name.wrapping_add(1); srcs.push(s2); } let dest = if dup && matches!(dest, DestSpec::Absent) { DestSpec::EmptyDir } else { dest }; c02::Case {
             srcs,
             dest,
             dest_spell: Spell::Plain,
@@ -80,7 +80,8 @@ pub fn base_strategy() -> BoxedStrategy<c02::Case> {
             nolinks,
             extra: 0,
             dest_via_link: false,
-        })
+            dup_basename: dup,
+        } })
         .boxed()
 }
 
@@ -292,6 +293,9 @@ pub fn judge(c: &Case, rec: &mut Rec) -> Verdict {
     let nfiles = o0.view.values().filter(|v| v.starts_with('F')).count();
     let key = format!("exit={}|orders={}|multiblock={}|files={}", if o0.exit_ok { "0" } else { "!0" }, std::cmp::min(distinct_orders, 4), multi, if nfiles >= 8 { ">=8" } else { "<8" });
     let new = rec.class(key);
+    if c.base.dup_basename {
+        rec.class(format!("same-basename-sources|exit={}", if o0.exit_ok { "0" } else { "!0" }));
+    }
     for r in &c.runs {
         rec.class(format!("run|{}|w{}|{:?}", if r.parblock { "parblock" } else { "parfile" }, r.workers, sched_of(r).kind).split('(').next().unwrap().to_string());
     }
@@ -382,6 +386,6 @@ impl Check for C06 {
         }
     }
     fn required_classes(&self, _tier: Tier) -> Vec<String> {
-        ["run|parblock|w64", "run|parfile|w1|", "WalkerFirst", "WorkersFirst", "StarveWorker", "multiblock=true", "orders=4", "stall|1200ms|fired=true", "stall|2500ms|fired=true"].iter().map(|s| s.to_string()).collect()
+        ["run|parblock|w64", "run|parfile|w1|", "WalkerFirst", "WorkersFirst", "StarveWorker", "multiblock=true", "orders=4", "stall|1200ms|fired=true", "stall|2500ms|fired=true", "same-basename-sources"].iter().map(|s| s.to_string()).collect()
     }
 }
